@@ -13,11 +13,20 @@ def escape_quotes_and_backslashes(s):
     return s.replace(u'\\', u'\\\\').replace(u"'", u"\\'")
 
 
+_PLAIN_PATH_STEP = re.compile(r"^[a-zA-Z_][a-zA-Z0-9_]*$")
+_PATTERN_KEYWORDS = frozenset([
+    "AND", "OR", "NOT", "FOLLOWEDBY", "LIKE", "MATCHES", "ISSUPERSET",
+    "ISSUBSET", "EXISTS", "LAST", "IN", "START", "STOP", "SECONDS", "true",
+    "false", "WITHIN", "REPEATS", "TIMES",
+])
+
+
 def quote_if_needed(x):
     if isinstance(x, str):
-        if x.find("-") != -1:
-            if not x.startswith("'"):
-                return "'" + x + "'"
+        if not x.startswith("'") and (
+            not _PLAIN_PATH_STEP.match(x) or x in _PATTERN_KEYWORDS
+        ):
+            return "'" + x + "'"
     return x
 
 
